@@ -1,12 +1,17 @@
 import KsVerif.Base.Verdict
 import KsVerif.Api.Progress
+import KsVerif.Sched.Driver
 open KsVerif
 
 /-- One case: family, payload, implementation observation → verdict. -/
 def judge (fam payload impl : String) : Verdict :=
   match fam with
   | "progress" => Progress.judge payload impl
-  | _ => .bad "unknown-family"
+  | "sched.emit" => Sched.judgeEmit payload impl
+  | "sched.dump" => Sched.judgeDump payload impl
+  | _ =>
+    if fam.startsWith "sched.match." then Sched.judgeMatch (fam.drop 12).toString payload impl
+    else .bad "unknown-family"
 
 partial def loop (h : IO.FS.Stream) (out : IO.FS.Stream) : IO Unit := do
   let line ← h.getLine
